@@ -46,7 +46,11 @@ const (
 	perturbedGap = 5 * time.Millisecond
 	// settleCeiling bounds the wait for the scheduler's goroutines to finish.
 	settleCeiling = 10 * time.Second
-	jobName       = "c02 job"
+	// stuckAfter: once everything the program can cause is overdue by this much and
+	// the goroutine count is still up, the goroutine dump is consulted (see settle).
+	stuckAfter   = 2 * time.Second
+	stuckConfirm = 400 * time.Millisecond
+	jobName      = "c02 job"
 )
 
 // Op is one operation of a program.
@@ -246,6 +250,13 @@ type obs struct {
 	reschedOK  bool // resched was attempted and settled
 	perturbed  bool
 	hung       string
+	// stuck: set when the scheduler's own job goroutine of this repetition was found
+	// parked on a channel operation inside scheduler code, with everything overdue
+	// by seconds, twice in a row without any progress in between, while the process
+	// itself was being scheduled normally.  stuckDump is that goroutine's stack.
+	stuck      string
+	stuckDump  string
+	stuckProbe string
 	// parkedAt: M2 with a runtime at least 20ms ahead: the instant at which the
 	// job goroutine was seen blocked in its select (-1: not seen).
 	parkedAt time.Duration
@@ -326,6 +337,14 @@ func (c *canary) reset() {
 	c.mu.Unlock()
 }
 
+func (c *canary) raise(g time.Duration) {
+	c.mu.Lock()
+	if g > c.maxGap {
+		c.maxGap = g
+	}
+	c.mu.Unlock()
+}
+
 func (c *canary) gap() time.Duration {
 	c.mu.Lock()
 	defer c.mu.Unlock()
@@ -358,31 +377,148 @@ func waitGoroutines(base int, ceiling time.Duration) bool {
 	}
 }
 
-// jobGoroutineParked reports whether a goroutine of the scheduler's
-// ScheduleJob/SchedulePeriodicJob is blocked in a select.  It only reads the
-// runtime's goroutine dump (no source hook); if the dump does not look as
-// expected the answer is false and the clause that needs it is not judged.
-func jobGoroutineParked() bool {
-	buf := make([]byte, 1<<17)
+// settle waits until the goroutine count is back at base (the scheduler's job
+// goroutine and the lock watchdogs of this repetition are gone).  If that has not
+// happened stuckAfter after the instant by which everything the program can
+// cause is due (overdueFrom), the goroutine dump is consulted: a job goroutine of
+// the scheduler (other than those in leaked) that is parked on a channel
+// operation inside scheduler code, is found in the same state again
+// stuckConfirm later with no runtime asked for and no run started or in progress
+// in between, while the canary shows that this process was being scheduled
+// normally, is reported as stuck.  Anything else (nothing of the scheduler parked:
+// a stalled machine, a harness goroutine) keeps waiting until the ceiling.
+func settle(base int, overdueFrom time.Time, can *canary, leaked map[string]bool, progress func() [3]int) (bool, *schedGoroutine) {
+	start := time.Now()
+	if overdueFrom.Before(start) {
+		overdueFrom = start
+	}
+	deadline := overdueFrom.Add(settleCeiling)
+	nextDiag := overdueFrom.Add(stuckAfter)
+	ok := 0
+	for {
+		if runtime.NumGoroutine() <= base {
+			ok++
+			if ok >= 2 {
+				return true, nil
+			}
+		} else {
+			ok = 0
+		}
+		now := time.Now()
+		if now.After(deadline) {
+			return false, nil
+		}
+		if now.After(nextDiag) {
+			b1 := stuckBlocked(schedGoroutines())
+			for id := range b1 {
+				if leaked[id] {
+					delete(b1, id)
+				}
+			}
+			if len(b1) > 0 {
+				p1 := progress()
+				g0 := can.gap()
+				can.reset()
+				time.Sleep(stuckConfirm)
+				b2 := stuckBlocked(schedGoroutines())
+				p2 := progress()
+				calm := can.gap() < 50*time.Millisecond
+				can.raise(g0)
+				if calm && p1 == p2 && p1[2] == 0 {
+					for id, g := range b1 {
+						if g2, ok := b2[id]; ok && g2.state == g.state {
+							return false, &g2
+						}
+					}
+				}
+			}
+			nextDiag = time.Now().Add(time.Second)
+		}
+		if now.Sub(overdueFrom) > 100*time.Millisecond {
+			time.Sleep(500 * time.Microsecond)
+		} else {
+			time.Sleep(30 * time.Microsecond)
+		}
+	}
+}
+
+// schedGoroutine is one goroutine of the scheduler's ScheduleJob /
+// SchedulePeriodicJob (its job goroutine), as found in the runtime's goroutine
+// dump.  Only the dump is read (no source hook); if the dump does not look as
+// expected nothing is found and the clauses that need it are not judged.
+type schedGoroutine struct {
+	id    string
+	state string // select | chan receive | chan send | sleep | running | ...
+	// inScheduler: the innermost frame is scheduler code (not the job function or
+	// the runtime function of the harness, not a lock).
+	inScheduler bool
+	text        string
+}
+
+const schedPkg = "services/scheduler/advanced."
+
+func schedGoroutines() []schedGoroutine {
+	buf := make([]byte, 1<<18)
 	n := runtime.Stack(buf, true)
+	var res []schedGoroutine
 	for _, g := range bytes.Split(buf[:n], []byte("\n\n")) {
 		nl := bytes.IndexByte(g, '\n')
-		if nl < 0 {
+		if nl < 0 || !bytes.HasPrefix(g, []byte("goroutine ")) {
 			continue
 		}
 		head, body := g[:nl], g[nl+1:]
-		if !bytes.Contains(head, []byte("[select")) {
+		// the frames of the goroutine itself come before its "created by" line
+		own := body
+		if i := bytes.Index(own, []byte("created by ")); i >= 0 {
+			own = own[:i]
+		}
+		if !bytes.Contains(own, []byte("scheduler/advanced.(*Service).Schedule")) {
 			continue
 		}
-		// the frames of the goroutine itself come before its "created by" line
-		if i := bytes.Index(body, []byte("created by ")); i >= 0 {
-			body = body[:i]
+		sg := schedGoroutine{text: string(g)}
+		f := bytes.Fields(head)
+		if len(f) >= 2 {
+			sg.id = string(f[1])
 		}
-		if bytes.Contains(body, []byte("scheduler/advanced.(*Service).Schedule")) {
-			return true
+		if i, j := bytes.IndexByte(head, '['), bytes.LastIndexByte(head, ']'); i >= 0 && j > i {
+			st := string(head[i+1 : j])
+			if k := bytes.IndexByte([]byte(st), ','); k >= 0 {
+				st = st[:k]
+			}
+			sg.state = st
+		}
+		top := own
+		if i := bytes.IndexByte(top, '\n'); i >= 0 {
+			top = top[:i]
+		}
+		sg.inScheduler = bytes.Contains(top, []byte(schedPkg))
+		res = append(res, sg)
+	}
+	return res
+}
+
+// jobGoroutineParked reports whether more than `leaked` job goroutines of the
+// scheduler are blocked in a select.
+func jobGoroutineParked(leaked int) bool {
+	n := 0
+	for _, g := range schedGoroutines() {
+		if g.state == "select" {
+			n++
 		}
 	}
-	return false
+	return n > leaked
+}
+
+// stuckBlocked lists the job goroutines that are parked inside scheduler code on
+// a channel operation.
+func stuckBlocked(gs []schedGoroutine) map[string]schedGoroutine {
+	m := map[string]schedGoroutine{}
+	for _, g := range gs {
+		if g.inScheduler && (g.state == "select" || g.state == "chan receive" || g.state == "chan send") {
+			m[g.id] = g
+		}
+	}
+	return m
 }
 
 func callOp(s *advanced.Service, ctx context.Context, cancelCtx context.CancelFunc, kind string, t0 time.Time, r *opRes) {
@@ -414,7 +550,7 @@ func callOp(s *advanced.Service, ctx context.Context, cancelCtx context.CancelFu
 
 // runRep executes the program once.  base is the goroutine count of the idle
 // process (including the canary).
-func runRep(c *Case, base int, can *canary) (*obs, error) {
+func runRep(c *Case, base int, can *canary, leaked map[string]bool, leakedSelect int) (*obs, error) {
 	o := &obs{parkedAt: -1}
 	bg := context.Background()
 	svc, err := advanced.New(bg, advanced.WithLogLevel(zerolog.Disabled))
@@ -525,7 +661,7 @@ func runRep(c *Case, base int, can *canary) (*obs, error) {
 			// had reached its select before the cancellation (on a loaded machine a
 			// goroutine that has not started yet can be left waiting for tens of ms).
 			for i := 0; i < 20; i++ {
-				if jobGoroutineParked() {
+				if jobGoroutineParked(leakedSelect) {
 					o.parkedAt = time.Since(t0)
 					break
 				}
@@ -557,12 +693,32 @@ func runRep(c *Case, base int, can *canary) (*obs, error) {
 	if h := us(c.HorizonUs + c.PeriodUs); h > lastTick {
 		lastTick = h
 	}
-	ceiling := settleCeiling
-	if d := time.Until(t0.Add(lastTick)); d > 0 {
-		ceiling += d
+	progress := func() [3]int {
+		hmu.Lock()
+		h := len(o.handouts)
+		hmu.Unlock()
+		rec.mu.Lock()
+		defer rec.mu.Unlock()
+		return [3]int{h, len(rec.runs), rec.cur}
 	}
-	o.settled = waitGoroutines(base, ceiling)
+	var stuck *schedGoroutine
+	o.settled, stuck = settle(base, t0.Add(lastTick), can, leaked, progress)
 	o.runs, o.maxConc = rec.snapshot()
+	if stuck != nil {
+		o.stuck, o.stuckDump = stuck.state, stuck.text
+		if c.Periodic {
+			// corroboration only: what does an early-run request say now?
+			res := make(chan error, 1)
+			go func() { res <- svc.RunJob(bg, jobName) }()
+			select {
+			case err := <-res:
+				o.stuckProbe = fmt.Sprintf("RunJob now returns %v", err)
+			case <-time.After(300 * time.Millisecond):
+				o.stuckProbe = "RunJob now does not return"
+			}
+		}
+		return o, nil
+	}
 	if !c.Periodic && len(o.runs) == 0 && o.settled {
 		// A one-off job that has not run: look again when its runtime is clearly
 		// over, so that neither "never ran" nor "dropped" rests on the goroutine
@@ -894,6 +1050,45 @@ func judgePeriodic(c *Case, o *obs) []verdict {
 	return vs
 }
 
+// judgeStuck: the scheduler's own job goroutine of this repetition is parked for
+// good inside scheduler code (see settle).  The statement speaks about two such
+// situations: a periodic job that does not keep ticking after an early run, and a
+// one-off job that was neither cancelled nor run.
+func judgeStuck(c *Case, o *obs) []verdict {
+	vs := judgeCommon(c, o)
+	f := collect(o)
+	where := fmt.Sprintf("its job goroutine is parked in scheduler code [%s] and stayed there, with no runtime asked for and no run started, from %v after everything was due", o.stuck, stuckAfter)
+	if o.stuckProbe != "" {
+		where += "; " + o.stuckProbe + " while the job function is not executing"
+	}
+	where += "; goroutine: " + o.stuckDump
+	if c.Periodic {
+		if o.maxConc > 1 {
+			vs = append(vs, verdict{"periodic-overlap", fmt.Sprintf("periodic job function ran %d times concurrently", o.maxConc)})
+		}
+		if !f.cancelIssued && f.anyRunNow {
+			last := "none"
+			if n := len(o.handVals); n > 0 {
+				last = fmt.Sprint(o.handVals[n-1])
+			}
+			vs = append(vs, verdict{"periodic-stopped-after-early-run", fmt.Sprintf("after an early run the job stopped ticking (asked for a runtime %d times, last one %s, never told that there are no more instances): %s", len(o.handouts), last, where)})
+		}
+		return vs
+	}
+	n := len(o.runs)
+	if n > 1 {
+		vs = append(vs, verdict{"oneoff-ran-twice", fmt.Sprintf("one-off job ran %d times", n)})
+	}
+	if n == 0 && !ctxCancelIssued(o) && !f.cancelOK {
+		sig := "oneoff-dropped"
+		if f.anyRunNow {
+			sig = "oneoff-dropped-after-early-run"
+		}
+		vs = append(vs, verdict{sig, "the job was not cancelled and never ran: " + where})
+	}
+	return vs
+}
+
 // ---------------------------------------------------------------------------
 // check = run + judge, R repetitions
 
@@ -1000,14 +1195,44 @@ func check(t ev.TB, c *Case) {
 		base = b
 	}
 
+	// job goroutines of the scheduler left behind by earlier programs of this
+	// process (only after a reported hang)
+	leaked := map[string]bool{}
+	leakedSelect := 0
+	for _, g := range schedGoroutines() {
+		leaked[g.id] = true
+		if g.state == "select" {
+			leakedSelect++
+		}
+	}
+
 	fails := map[string]int{}
 	firstDetail := map[string]string{}
 	var order []string
 	judged, perturbed, clearCancels, bothOutcomes := 0, 0, 0, map[int]int{}
 	for rep := 0; rep < c.Reps; rep++ {
-		o, err := runRep(c, base, can)
+		o, err := runRep(c, base, can, leaked, leakedSelect)
 		if err != nil {
 			t.Fatalf("harness problem: %v", err)
+		}
+		if o.stuck != "" {
+			// structural hang of the scheduler's own job goroutine: judge it, and stop
+			// repeating (the goroutine stays behind; the next program measures its own
+			// baseline)
+			ev.Label("job-goroutine-found-stuck")
+			vs := judgeStuck(c, o)
+			judged++
+			if len(vs) == 0 {
+				ev.Inconclusive(fmt.Sprintf("job goroutine stuck in a situation the statement does not speak about, repetition %d of %s; %s\n%s", rep, string(mustJSON(c)), describe(o), o.stuckDump))
+			}
+			for _, v := range vs {
+				if fails[v.sig] == 0 {
+					order = append(order, v.sig)
+					firstDetail[v.sig] = fmt.Sprintf("repetition %d: %s; %s", rep, v.detail, describe(o))
+				}
+				fails[v.sig]++
+			}
+			break
 		}
 		if !o.settled || o.hung != "" {
 			// The goroutine count did not come back within the ceiling.  Whatever the
@@ -1038,12 +1263,22 @@ func check(t ev.TB, c *Case) {
 			clearCancels++
 		}
 		bothOutcomes[len(o.runs)]++
+		stop := false
 		for _, v := range vs {
 			if fails[v.sig] == 0 {
 				order = append(order, v.sig)
 				firstDetail[v.sig] = fmt.Sprintf("repetition %d: %s; %s", rep, v.detail, describe(o))
 			}
 			fails[v.sig]++
+			// A violation that is not a listed open finding ends the search in this
+			// program at once (rapid shrinks from here); a replay goes on to report how
+			// many repetitions fail.
+			if !ev.IsKnown(v.sig) && ev.ReplayFile() == "" {
+				stop = true
+			}
+		}
+		if stop {
+			break
 		}
 	}
 	ev.LabelN("repetitions", int64(judged))
